@@ -1,4 +1,5 @@
 (* driver for the C12 (engine polling loops) correspondence runner.
+   Every command starts with FX = stop rule (1 = current /repo rule).
    Common tokens:  ORD  = p:v:b:o,...   (order table)     TRAJ = p:v:b,...  (one conf per frame)
    Answer: KIND success pstate o:idx:rev,...      KIND in RET TRUNC RAISE IDXERR HANG *)
 let conf_of_string s =
@@ -29,33 +30,33 @@ let triple3 f g h s = match String.split_on_char ':' s with
 
 let handle toks =
   match toks with
-  | ["lammps"; fix; rv; l; r; ml; code; dead; traj; ordt; reads] ->
+  | ["lammps"; fx; fix; rv; l; r; ml; code; dead; traj; ordt; reads] ->
     string_of_result
-      (lammps_run (ord_of_string ordt) (z_of_string l) (z_of_string r) (bool_of_string_ rv)
+      (lammps_run (bool_of_string_ fx) (ord_of_string ordt) (z_of_string l) (z_of_string r) (bool_of_string_ rv)
          (list_of_string conf_of_string traj) (z_of_string code) (bool_of_string_ fix)
          (empty_path (nat_of_string ml) Z0) (bool_of_string_ dead)
          (list_of_string (pair2 nat_of_string bool_of_string_) reads))
-  | ["cp2k"; rv; l; r; ml; code; dead; box0; traj; ordt; reads] ->
+  | ["cp2k"; fx; rv; l; r; ml; code; dead; box0; traj; ordt; reads] ->
     string_of_result
-      (cp2k_run (ord_of_string ordt) (z_of_string l) (z_of_string r) (bool_of_string_ rv)
+      (cp2k_run (bool_of_string_ fx) (ord_of_string ordt) (z_of_string l) (z_of_string r) (bool_of_string_ rv)
          (list_of_string conf_of_string traj) (z_of_string code) (z_of_string box0)
          (empty_path (nat_of_string ml) Z0) (bool_of_string_ dead)
          (list_of_string (triple3 nat_of_string nat_of_string bool_of_string_) reads))
-  | ["gromacs"; fix; rv; l; r; ml; code; dead; hsz; dsz; head0; fin; traj; ordt; eps] ->
+  | ["gromacs"; fx; fix; rv; l; r; ml; code; dead; hsz; dsz; head0; fin; traj; ordt; eps] ->
     string_of_result
-      (gromacs_run (ord_of_string ordt) (z_of_string l) (z_of_string r) (bool_of_string_ rv)
+      (gromacs_run (bool_of_string_ fx) (ord_of_string ordt) (z_of_string l) (z_of_string r) (bool_of_string_ rv)
          (list_of_string conf_of_string traj) (z_of_string code) (bool_of_string_ fix)
          (nat_of_string hsz) (nat_of_string dsz) (nat_of_string head0) (nat_of_string fin)
          (empty_path (nat_of_string ml) Z0) (bool_of_string_ dead)
          (list_of_string nat_of_string eps))
-  | ["inproc"; rv; l; r; ml; s; fine; ordt] ->
+  | ["inproc"; fx; rv; l; r; ml; s; fine; ordt] ->
     string_of_result
-      (inproc_loop (ord_of_string ordt) (z_of_string l) (z_of_string r) (bool_of_string_ rv)
+      (inproc_loop (bool_of_string_ fx) (ord_of_string ordt) (z_of_string l) (z_of_string r) (bool_of_string_ rv)
          (nat_of_string s) (list_of_string conf_of_string fine) O
          (empty_path (nat_of_string ml) Z0) O)
-  | ["spec"; rv; l; r; ml; traj; ordt] ->
+  | ["spec"; fx; rv; l; r; ml; traj; ordt] ->
     (* the specification: stop rule over the own-data frames of the trajectory *)
-    (match propagate_loop (empty_path (nat_of_string ml) Z0)
+    (match propagate_loop_x (bool_of_string_ fx) (empty_path (nat_of_string ml) Z0)
              (own_stream (ord_of_string ordt) (bool_of_string_ rv) (list_of_string conf_of_string traj))
              (z_of_string l) (z_of_string r) O with
      | PR (p, s, _) -> String.concat " " ["RET"; string_of_bool_ s; string_of_path p]
